@@ -199,42 +199,41 @@ func b64e(b []byte) string { return base64.RawURLEncoding.EncodeToString(b) }
 var minI64 = new(big.Int).Lsh(big.NewInt(-1), 63)
 var maxI64 = new(big.Int).Sub(new(big.Int).Lsh(big.NewInt(1), 63), big.NewInt(1))
 
-// timeClaim: (present, value, ok); out-of-range float conversions are treated as
-// "unknown" by the oracle (it then makes no claim).
-func timeClaim(v jv) (present bool, val int64, ok bool, exact bool) {
+// timeClaim: (present, mathematical value truncated toward zero, is-a-number).
+func timeClaim(v jv) (present bool, val *big.Int, ok bool) {
 	switch v.Kind {
 	case 'a':
-		return false, 0, true, true
+		return false, nil, true
 	case 'n':
-		if v.N.Cmp(minI64) < 0 || v.N.Cmp(maxI64) > 0 {
-			return true, 0, true, false
-		}
-		return true, v.N.Int64(), true, true
+		return true, v.N, true
 	}
-	return true, 0, false, true
+	return true, nil, false
 }
 
-// refTiming: are the time claims valid at now? (known=false: conversion is platform dependent)
+// refTiming: are the time claims valid at now, read as the integers they denote?
+// exp must lie strictly after now; the token must not be older than maxAge (> 0).
+// known=false only where the answer depends on the platform's float64 -> int64
+// conversion of a value ABOVE the int64 range (a claim further in the future than
+// any clock); values below the range are "infinitely old / long expired" on every
+// platform and are judged.
 func refTiming(c claimsView, now, maxAge int64) (valid bool, known bool) {
-	ep, ev, eok, eex := timeClaim(c.Exp)
-	ip, iv, iok, iex := timeClaim(c.Iat)
+	ep, ev, eok := timeClaim(c.Exp)
+	ip, iv, iok := timeClaim(c.Iat)
 	if !eok || !iok {
 		return false, true
 	}
-	if !eex || !iex {
-		return false, false
-	}
-	if ep && !(ev > now) {
+	bnow := big.NewInt(now)
+	if ep && ev.Cmp(bnow) <= 0 {
 		return false, true
 	}
-	if ip {
-		age := new(big.Int).Sub(big.NewInt(now), big.NewInt(iv))
-		if !age.IsInt64() {
-			return false, false
-		}
-		if maxAge > 0 && age.Int64() > maxAge {
+	if ip && maxAge > 0 && iv.Cmp(maxI64) <= 0 {
+		age := new(big.Int).Sub(bnow, iv)
+		if age.Cmp(big.NewInt(maxAge)) > 0 {
 			return false, true
 		}
+	}
+	if (ep && ev.Cmp(maxI64) > 0) || (ip && iv.Cmp(maxI64) > 0) {
+		return false, false
 	}
 	return true, true
 }
